@@ -624,6 +624,23 @@ def gen_program(rng, case, focus=None, allow_infeasible=True):
         except Exception:
             continue      # mechanisms of recorded findings (list slices etc.) are not carried into programs
         steps.append(st)
+        if st['op'] == 'dilute' and st.get('new_name'):
+            # (round 17, seeded s-C08-i) the container that was given a new name is diluted once more, without one: it keeps
+            # the new name, in the eager fold and in what bake returns. (Drawn from a generator of its own.)
+            import random as _random
+            aux = _random.Random(f"again:{st['conc']}:{st['new_name']}")
+            if aux.random() < 0.6:
+                val_, unit_ = st['conc'].split(' ', 1)
+                again = dict(st, conc=f'{float(val_) * aux.choice([0.5, 0.25, 0.8]):.6g} {unit_}', new_name=None)
+                try:
+                    with M.oracle():
+                        cur = apply_eager(cur, again)
+                    steps.append(again)
+                    M.bucket('C08/dilute/again_after_a_renaming_dilute')
+                except (MonitorBug, InjectedFault):
+                    raise
+                except Exception:   # noqa
+                    pass
         if open_stage and rng.random() < 0.35:
             steps.append({'op': 'end_stage', 'name': open_stage})
             open_stage = None
